@@ -131,6 +131,8 @@ impl<T: Tweenable> Parameter<T> {
 			if !started {
 				return false;
 			}
+			// once a tween has begun it no longer depends on the clock it waited for
+			tween.start_time = StartTime::Immediate;
 			*time += dt;
 			if *time >= tween.duration.as_secs_f64() {
 				if matches!(target, Value::Fixed(_)) {
